@@ -293,6 +293,16 @@ Lemma count_table :
   /\ map (fun n => UpdateDBAckCount (mk_UpdateDBAckCount_in false 2 n 0)) [0; 1; 2]%Z = [1; 2; 3].
 Proof. repeat split; vm_compute; reflexivity. Qed.
 
+Lemma qrun_no_replset : forall ops q, q_arb q = None -> all_current q ->
+  all_current (qrun q ops) /\ q_arb (qrun q ops) = None /\ q_mode (qrun q ops) = q_mode q.
+Proof.
+  induction ops as [|op rest IH]; intros q Ha H; cbn [qrun]; [auto|].
+  destruct (qstep_current_no_arbiter q op Ha H) as [Hs Ha'].
+  destruct (IH _ Ha' Hs) as [A [B C]]. split; [exact A|]. split; [exact B|]. rewrite C.
+  destruct op; cbn; try reflexivity; try (unfold get_or_new; destruct (db_count q d); reflexivity).
+  rewrite Ha. reflexivity.
+Qed.
+
 (* in a reachable state (no replica set, fewer than 255 followers) every ack DB asks for followers+1 resp. the
    strict majority *)
 Theorem quorum_count_meaning : forall ops mode,
@@ -303,16 +313,8 @@ Theorem quorum_count_meaning : forall ops mode,
     else c = N.of_nat (length (q_chans q) + 1).
 Proof.
   intros ops mode q Hlen d c Hin.
-  assert (Hall : all_current q /\ q_arb q = None /\ q_mode q = mode).
-  { subst q. generalize (init_current mode None).
-    assert (Hm : q_mode (q_init mode None) = mode) by reflexivity.
-    assert (Ha : q_arb (q_init mode None) = None) by reflexivity.
-    revert Hm Ha. generalize (q_init mode None). clear.
-    induction ops as [|op rest IH]; intros q Hm Ha H; cbn [qrun]; [auto|].
-    destruct (qstep_current_no_arbiter q op Ha H) as [Hs Ha'].
-    apply IH; auto.
-    destruct op; cbn; try exact Hm; try (unfold get_or_new; destruct (db_count q d); exact Hm).
-    rewrite Ha. exact Hm. }
+  assert (Hall := qrun_no_replset ops (q_init mode None) eq_refl (init_current mode None)).
+  fold q in Hall. cbn [q_mode q_init] in Hall.
   destruct Hall as [Hcur [Ha Hm]]. unfold all_current in Hcur. rewrite Forall_forall in Hcur.
   specialize (Hcur _ Hin). cbn [snd] in Hcur. subst c.
   unfold cur_count, count_in. rewrite Ha, Hm.
